@@ -20,7 +20,7 @@ OUTSIDE = ["nan", "0", "-1", "symbol"]
 
 
 def plan(tier, seed):
-    reps = 2 if tier == "quick" else 12
+    reps = 2 if tier == "quick" else 150
     cases = []
     for rep in range(reps):
         for mc in MASS_CLASSES:
